@@ -53,6 +53,8 @@ func pool(thorough bool) []val {
 		{Src: "FB.new(1.5)", Fam: "float", Desc: true}, {Src: "FB.new(2.5)", Fam: "float", Desc: true},
 		{Src: `"nan".F`, NaN: true},
 		{Src: `""`, Fam: "str"}, {Src: `"a"`, Fam: "str"}, {Src: `"b"`, Fam: "str"}, {Src: `"ab"`, Fam: "str"}, {Src: `'a`, Fam: "str"},
+		// two different texts with the same 64-bit FNV-1a value (the symbol hash), and strs that are not valid UTF-8
+		{Src: `"swddgEpwqyega"`, Fam: "str"}, {Src: `"lwvgwfgDAyorc"`, Fam: "str"}, {Src: `(/~"a")`, Fam: "str"}, {Src: `(/~"b")`, Fam: "str"}, {Src: `("x" + /~"a")`, Fam: "str"},
 		{Src: `SB.new("a")`, Fam: "str", Desc: true}, {Src: `SB.new("b")`, Fam: "str", Desc: true},
 		{Src: "nil"},
 		{Src: "[]"}, {Src: "[1]"}, {Src: "[1, 2]"}, {Src: "[1.0]"}, {Src: "[[1], [2]]"}, {Src: "[true]"}, {Src: "AB.new([1])"},
